@@ -27,7 +27,7 @@ def run(tier, replay=None):
     else:
         wreqs = [2] if tier == "quick" else [1, 2, 3]
         maxd = 2 if tier == "quick" else 3
-        total, pairs = c02.gen_and_replay(ck, binp, [1, 2, 3, 4], wreqs, maxd, label="c14")
+        total, pairs = c02.gen_and_replay(ck, binp, [5], wreqs, maxd, label="c14")
     multi, failed, drift, ngroups = c02.judge(ck, pairs)
     kinds = {}
     for c, r in pairs:
